@@ -1055,10 +1055,19 @@ static std::string observedPlan(bool refusedStart, const char *refuseWhat, bool 
   return "none";
 }
 
+/// what `SSL_CTX_set_default_verify_paths` will find: the cell's system store
+static void setSystemStore(const std::string &sys)
+{
+  std::string f = sys == "right" ? g_ck["caR"].certPath : sys == "wrong" ? g_ck["caW"].certPath : g_dir + "/empty.pem";
+  ::setenv("SSL_CERT_FILE", f.c_str(), 1);
+  ::setenv("SSL_CERT_DIR", (g_dir + "/emptydir").c_str(), 1);
+}
+
 // ---- iora as CLIENT: cli <api> <verify> <trust> <scert> <ceil> <peer> <target> <min> <et> <batch> <enabled> <defmode> <req>
 static CellResult runClientCell(const std::vector<std::string> &t)
 {
   CellResult r;
+  setSystemStore("empty");
   const std::string &api = t[1], &trust = t[3], &scert = t[4], &peer = t[6], &target = t[7];
   bool verify = t[2] == "1";
   int ceil = ceilVersion(t[5]);
@@ -1193,6 +1202,7 @@ static CellResult runClientCell(const std::vector<std::string> &t)
 static CellResult runServerCell(const std::vector<std::string> &t)
 {
   CellResult r;
+  setSystemStore("empty");
   bool verify = t[1] == "1";
   const std::string &trust = t[2], &own = t[3], &ccert = t[4], &peer = t[6];
   int ceil = ceilVersion(t[5]);
@@ -1302,9 +1312,7 @@ static CellResult runHttpCell(const std::vector<std::string> &t)
   bool verify = t[1] == "1";
   const std::string &ca = t[2], &sys = t[3], &scert = t[4], &url = t[5], &peer = t[7];
   int ceil = ceilVersion(t[6]);
-  std::string sysFile = sys == "right" ? g_ck["caR"].certPath : sys == "wrong" ? g_ck["caW"].certPath : g_dir + "/empty.pem";
-  ::setenv("SSL_CERT_FILE", sysFile.c_str(), 1);
-  ::setenv("SSL_CERT_DIR", (g_dir + "/emptydir").c_str(), 1);
+  setSystemStore(sys);
   std::string reason = "-";
   for (int attempt = 0; attempt < 3; ++attempt)
   {
@@ -1363,6 +1371,7 @@ static CellResult runHttpCell(const std::vector<std::string> &t)
 static CellResult runHttpServerCell(const std::vector<std::string> &t)
 {
   CellResult r;
+  setSystemStore("empty");
   bool require = t[1] == "1";
   const std::string &ca = t[2], &own = t[3], &ccert = t[4], &peer = t[6];
   int ceil = ceilVersion(t[5]);
